@@ -122,7 +122,7 @@ func genC05(t *rapid.T) c05Case {
 	name := sortedKeys(svcs)[0]
 	svc := svcs[name].(map[string]any)
 	// a service must keep its identity: no container_name clash etc. is needed, bases are only templates
-	nbases := rapid.IntRange(1, 4).Draw(t, "nbases")
+	nbases := rapid.SampledFrom([]int{1, 1, 2, 2, 3, 3, 4, 5, 6}).Draw(t, "nbases")
 	sp := &splitter{t: t, n: nbases + 1, used: map[string]int{}, noTags: true, carryRequired: true}
 	rulePath := "services." + strings.ReplaceAll(name, ".", "_") // a dot in a name is not a path separator
 	frs := sp.splitMap(rulePath, svc)
